@@ -345,6 +345,13 @@ func (a *App) handleDefault(spokfile *file.SpokFile, runner shell.Runner) error 
 // not defined a clean task in the spokfile itself.
 func (a *App) clean(spokfile *file.SpokFile) error {
 	var toRemove []string
+
+	// Output glob patterns need expanding to the files they currently match
+	globbed, err := spokfile.ExpandGlobs()
+	if err != nil {
+		return err
+	}
+
 	for _, task := range spokfile.Tasks {
 		// Gather up all the declared file outputs
 		for _, fileOutput := range task.FileOutputs {
@@ -369,6 +376,10 @@ func (a *App) clean(spokfile *file.SpokFile) error {
 			if !ok {
 				return fmt.Errorf("Named output %s is not defined", namedOutput)
 			}
+			if !filepath.IsAbs(actual) {
+				// Just like file outputs, relative paths are relative to the spokfile
+				actual = filepath.Join(spokfile.Dir, actual)
+			}
 			resolved, err := filepath.Abs(actual)
 			if err != nil {
 				return err
@@ -381,6 +392,24 @@ func (a *App) clean(spokfile *file.SpokFile) error {
 				}
 			}
 			toRemove = append(toRemove, resolved)
+		}
+
+		// And anything matching an output glob pattern, a pattern can never
+		// be allowed to take the spokfile (or what it lives in) with it
+		for _, pattern := range task.GlobOutputs {
+			for _, match := range globbed[pattern] {
+				if !protected(spokfile, match) {
+					toRemove = append(toRemove, match)
+				}
+			}
+		}
+	}
+
+	// Whatever an output evaluates to (e.g. an empty variable is the directory itself), the spokfile,
+	// the directory it sits in and everything above that are not build artifacts
+	for _, path := range toRemove {
+		if protected(spokfile, path) {
+			return fmt.Errorf("Refusing to remove %s: it is (or contains) the spokfile", path)
 		}
 	}
 
@@ -402,6 +431,20 @@ func (a *App) clean(spokfile *file.SpokFile) error {
 	}
 	msg.Fsuccess(a.stream.Stdout, "Done")
 	return nil
+}
+
+// protected reports whether path is the spokfile, the directory containing it or
+// any directory above that, none of which --clean may ever remove.
+func protected(spokfile *file.SpokFile, path string) bool {
+	path = filepath.Clean(path)
+	for dir := filepath.Clean(spokfile.Path); ; dir = filepath.Dir(dir) {
+		if path == dir {
+			return true
+		}
+		if dir == filepath.Dir(dir) {
+			return false
+		}
+	}
 }
 
 // setStream reassigns all the app's IO streams to match the one passed in.
